@@ -25,6 +25,7 @@ func propC09(a *Analysis, r *Registry) {
 	for _, fr := range freshClaims[:6] {
 		a.CheckFresh(r, "A-3 fresh-result", fr.fn, fr.idx)
 	}
+	propC09copy(a, r, b)
 	for _, n := range []string{"stats.Mean", "stats.Variance", "stats.StdDev", "stats.GeoMean", "stats.Bounds", "stats.MeanCI",
 		"stats.(Sample).Bounds", "stats.(Sample).Sum", "stats.(Sample).Weight", "stats.(Sample).Mean", "stats.(Sample).GeoMean",
 		"stats.(Sample).Variance", "stats.(Sample).StdDev", "stats.(Sample).Copy", "stats.(*Sample).Sort",
@@ -270,13 +271,32 @@ func propC09(a *Analysis, r *Registry) {
 					r.Fail(rB, ac.construct+"/same-index", a.W.InstrPos(ret), "value and weight are read at different indices")
 				}
 			}
-			b.FullScan("C-scan coverage", ac.construct+"/visits-all", a.W.InstrPos(ret), fc, idxs[0], env.MustParse("len("+ac.bases[0][1]+")"))
+			nRF := env.MustParse("len(" + ac.bases[0][1] + ")")
+			scanned := b.FullScan("C-scan coverage", ac.construct+"/visits-all", a.W.InstrPos(ret), fc, idxs[0], nRF)
 			vars := b.LoopSystem(rB, ac.construct+"/recurrence", a.W.InstrPos(ret), fc, rv, env, ac.recs)
 			if vars != nil {
 				for k, v := range vars {
 					env.Set(k, v, nil)
 				}
-				b.Eq(rB, ac.construct+"/result", a.W.InstrPos(ret), rv, env, ac.result)
+				// a counter read after the complete scan has the value it left the loop with
+				res := rv
+				if scanned {
+					if ev := b.ExitValues(fc, rv, idxs[0], nRF); len(ev) > 0 {
+						keep := map[AtomID]bool{}
+						for _, v := range vars {
+							if va := v.SingleAtom(); va != nil {
+								keep[va.ID] = true
+							}
+						}
+						for id := range ev {
+							if keep[id] {
+								delete(ev, id)
+							}
+						}
+						res = rv.Subst(ev)
+					}
+				}
+				b.Eq(rB, ac.construct+"/result", a.W.InstrPos(ret), res, env, ac.result)
 			}
 		})
 	}
@@ -442,6 +462,7 @@ func propC09(a *Analysis, r *Registry) {
 			fc := X.Under(fn, X.AssumeEq(env.MustParse("s.Sorted"), S.True()), X.AssumeCond(env.MustParse("s.Weights==nil"), false),
 				X.AssumeCond(env.MustParse("len(s.Xs)==0"), false))
 			xs, ws := env.MustParse("s.Xs"), env.MustParse("s.Weights")
+			var fwdE *RF
 			for ri, dir := range []string{"forward", "backward"} {
 				construct := "stats.(Sample).Bounds/sorted-weighted/" + dir
 				ri := ri
@@ -512,6 +533,40 @@ func propC09(a *Analysis, r *Registry) {
 					continue
 				}
 				e := es[0]
+				// an index remembered at the scan's break (`first = i; break`, -1 otherwise) is a merge
+				// of the loop counter with a not-found marker: the scanned index is the counter
+				if ea := e.SingleAtom(); ea != nil && X.phiOf[ea.ID] != nil && len(fc.loopPhis(e)) > 0 {
+					ph := X.phiOf[ea.ID]
+					pfc := X.phiFC[ea.ID]
+					isHeader := false
+					vals, preds := pfc.Ctx.PhiLiveEdges(ph)
+					for _, pr := range preds {
+						if pfc.Ctx.Dominates(ph.Block(), pr) {
+							isHeader = true
+						}
+					}
+					if !isHeader {
+						var alts []*RF
+						for _, pv := range vals {
+							av := pfc.Sub(pfc.Val(pv))
+							if _, isC := av.IsConst(); isC {
+								continue // the not-found marker
+							}
+							dup := false
+							for _, o := range alts {
+								if o.Equal(av) {
+									dup = true
+								}
+							}
+							if !dup {
+								alts = append(alts, av)
+							}
+						}
+						if len(alts) == 1 {
+							e = alts[0]
+						}
+					}
+				}
 				var k *RF
 				for _, ph := range fc.loopPhis(e) {
 					if d, isC := e.Sub(ph).IsConst(); isC && d.IsInt() {
@@ -557,6 +612,54 @@ func propC09(a *Analysis, r *Registry) {
 				exhausted := S.Or(S.Cmp("<=", S.MakeFn("len", ws), e), S.Cmp("<=", S.MakeFn("len", xs), e))
 				if dir == "backward" {
 					exhausted = S.Cmp("<", e, S.Int(0))
+					// (coming down to the index the forward scan stopped at is as good: every index
+					// above it has been examined, and it carries a non-zero weight itself)
+					// — provided the maximum is the value at the index the scan is left with on
+					// every way out (no not-found marker such as an initial NaN among its alternatives)
+					var onlyIdx func(v *RF, depth int) bool
+					onlyIdx = func(v *RF, depth int) bool {
+						at := v.SingleAtom()
+						if at == nil || depth > 6 {
+							return false
+						}
+						switch {
+						case at.Name == "ite" && len(at.Args) == 3:
+							return onlyIdx(at.Args[1], depth+1) && onlyIdx(at.Args[2], depth+1)
+						case at.Name == "idx" && at.Args[0].Equal(xs):
+							return true
+						}
+						if ph, ok := X.phiOf[at.ID]; ok {
+							pfc := X.phiFC[at.ID]
+							vals, preds := pfc.Ctx.PhiLiveEdges(ph)
+							for _, pr := range preds {
+								if pfc.Ctx.Dominates(ph.Block(), pr) {
+									return false
+								}
+							}
+							for _, pv := range vals {
+								if !onlyIdx(pfc.Sub(pfc.Val(pv)), depth+1) {
+									return false
+								}
+							}
+							return len(vals) > 0
+						}
+						return false
+					}
+					after := true
+					nAfter := 0
+					for _, rt := range kfc.Ctx.Returns() {
+						if kfc.Ctx.Dominates(hdr, rt.Block()) && ri < len(rt.Results) {
+							nAfter++
+							if !onlyIdx(kfc.Sub(kfc.Val(rt.Results[ri])), 0) {
+								after = false
+							}
+						}
+					}
+					if fwdE != nil && after && nAfter > 0 {
+						exhausted = S.Or(exhausted, S.Cmp("<=", e, fwdE))
+					}
+				} else {
+					fwdE = e
 				}
 				early := ""
 				if kl == nil {
